@@ -858,6 +858,17 @@ fn small_jobs() -> Vec<ShaderRef> {
         .collect()
 }
 
+/// How much of its output a failing formatter gets out: cut anywhere, or (one time in three) cut
+/// at the end of a top-level item, so that what it printed is a complete Rust file, only shorter.
+fn partial_output(rng: &mut Rng) -> u32 {
+    let permille = rng.range(1, 999) as u32;
+    if rng.chance(350) {
+        1000 + permille
+    } else {
+        permille
+    }
+}
+
 fn maybe_delay(rng: &mut Rng, script: &mut Vec<Op>, permille: u64) {
     if rng.chance(permille) {
         script.push(Op::Delay(*rng.pick(DELAYS)));
@@ -947,7 +958,7 @@ pub fn gen_case(rng: &mut Rng) -> Case {
                     s.push(Op::Flush);
                 }
                 1 => {
-                    s.push(Op::EmitRef(rng.range(1, 999) as u32));
+                    s.push(Op::EmitRef(partial_output(rng)));
                     s.push(Op::Flush);
                     if rng.chance(400) {
                         s.push(Op::CloseStdout);
@@ -1043,7 +1054,7 @@ pub fn gen_case(rng: &mut Rng) -> Case {
             }
             2 => {
                 s.push(Op::ReadToEof);
-                s.push(Op::EmitRef(rng.range(1, 999) as u32));
+                s.push(Op::EmitRef(partial_output(rng)));
                 s.push(Op::Flush);
                 s.push(Op::Exit(0));
             }
@@ -1091,7 +1102,7 @@ pub fn gen_case(rng: &mut Rng) -> Case {
         match rng.below(10) {
             0..=5 => {}
             6..=7 => second.script = vec![Op::ReadToEof, Op::Exit(0)],
-            8 => second.script = vec![Op::ReadToEof, Op::EmitRef(rng.range(1, 999) as u32), Op::Flush, Op::Kill(libc::SIGKILL)],
+            8 => second.script = vec![Op::ReadToEof, Op::EmitRef(partial_output(rng)), Op::Flush, Op::Kill(libc::SIGKILL)],
             _ => second.script = vec![Op::Exit(1)],
         }
         later.push(second);
@@ -1134,7 +1145,7 @@ pub fn gen_case(rng: &mut Rng) -> Case {
                 0 => plan.spawn = SpawnPlan::NotFound,
                 1 => plan.script = vec![Op::Exit(1)],
                 2 => plan.script = vec![Op::ReadToEof, Op::Exit(0)],
-                3 => plan.script = vec![Op::ReadToEof, Op::EmitRef(rng.range(1, 999) as u32), Op::Flush, Op::Kill(libc::SIGKILL)],
+                3 => plan.script = vec![Op::ReadToEof, Op::EmitRef(partial_output(rng)), Op::Flush, Op::Kill(libc::SIGKILL)],
                 4 => plan.script = vec![Op::Read(rng.usize(1, 5000)), Op::Kill(libc::SIGTERM)],
                 5 => plan.script = vec![Op::ReadToEof, Op::Stderr(300), Op::Exit(2)],
                 _ => {}
@@ -1171,6 +1182,9 @@ pub fn systematic_cases() -> Vec<Case> {
         (SpawnPlan::Ok, vec![Op::ReadToEof, Op::Exit(1)]),
         (SpawnPlan::Ok, vec![Op::ReadToEof, Op::Format, Op::Flush, Op::Exit(1)]),
         (SpawnPlan::Ok, vec![Op::ReadToEof, Op::EmitRef(500), Op::Flush, Op::Exit(101)]),
+        // the same with the cut at the end of a top-level item: what was printed parses
+        (SpawnPlan::Ok, vec![Op::ReadToEof, Op::EmitRef(1300), Op::Flush, Op::Exit(1)]),
+        (SpawnPlan::Ok, vec![Op::ReadToEof, Op::EmitRef(1600), Op::Flush, Op::Kill(libc::SIGKILL)]),
         (SpawnPlan::Ok, vec![Op::Exit(1)]),
         (SpawnPlan::Ok, vec![Op::Exit(127)]),
         (SpawnPlan::Ok, vec![Op::CloseStdin, Op::Delay(1000), Op::Exit(2)]),
